@@ -455,6 +455,26 @@ theorem C02_flags_redefined_right_supertype :
               (⟨"u", "z", .E⟩, false, false), (⟨"w", "q.x", .R⟩, false, false)] := by
   decide
 
+/-- Tie: a redeclaration `SELF\sup.x` whose `sup` itself only redeclares `x` is resolved to the end of that chain, by
+    `populateAttrList` (MakeDerived) and by `ATTRdeclarer` (MakeRedefined) alike (regenerated; false before fix C02-14). -/
+theorem C02_redecl_chain_followed : redeclFollowsChain = true := rfl
+
+/-- The shape the thorough tier found (defect 14): `gz SUBTYPE OF (vg, exh)`, both with an attribute `eo`; `gz` narrows `SELF\exh.eo`;
+    `gix` derives and `gex` redeclares `SELF\gz.eo`.  The attribute meant is `exh.eo`: it is flagged derived in `gix` and it alone is
+    wired in `gex` — `vg.eo` (the first attribute named `eo` among `gz`'s supertypes, which the code before the fix took) is not. -/
+theorem C02_flags_redecl_chain_two_lines :
+    let s : Schema :=
+      { name := "twochain", entities := [
+          { name := "vg", attrs := [{ name := "eo", type := .base .logical }] },
+          { name := "exh", attrs := [{ name := "eo", type := .base .number }] },
+          { name := "gz", supers := ["vg", "exh"], attrs := [{ name := "eo", redecl := some "exh", type := .base .number }] },
+          { name := "gix", supers := ["gz"], attrs := [{ name := "eo", redecl := some "gz", kind := .derived, type := .base .number }] },
+          { name := "gex", supers := ["gz"], attrs := [{ name := "eo", redecl := some "gz", type := .base .number }] }] }
+    instanceFlags s "gix" = some [(⟨"vg", "eo", .E⟩, false, false), (⟨"exh", "eo", .E⟩, true, true), (⟨"gz", "exh.eo", .R⟩, false, false)] ∧
+    instanceFlags s "gex" = some [(⟨"vg", "eo", .E⟩, false, false), (⟨"exh", "eo", .E⟩, false, true), (⟨"gz", "exh.eo", .R⟩, false, false),
+                                   (⟨"gex", "gz.eo", .R⟩, false, false)] := by
+  decide
+
 /-- Tie: `dedupList` carries the "derived by" mark of a repeated (attribute, creator) entry over to the entry it keeps
     (regenerated from ordered_attrs.cc; before fix C02-11 the mark was dropped with the entry, and this does not elaborate). -/
 theorem C02_dedup_keeps_derivation : dedupMergesDeriver = true := rfl
